@@ -9,6 +9,7 @@ import (
 	"sort"
 	"strings"
 	"sync"
+	"sync/atomic"
 	"time"
 
 	"github.com/ipfs/go-cid"
@@ -173,6 +174,7 @@ type valRec struct {
 	Kind int // 0 push 1 pull 2 restart
 	K    chidTok
 	Res  valSpec
+	Typ  string // the voucher type this validator was registered for (not compared with the model; used by a monitor)
 }
 type pkRec struct {
 	Peer int
@@ -205,6 +207,7 @@ type nodeRig struct {
 	registered         map[string]bool
 	issued             []uint64
 	inflight           int
+	slowClose          int32
 	delayFailingCancel bool
 	mgrOpts            []impl.DataTransferOption // extra manager options (channel monitor configuration)
 	failRestartSends   bool                      // integrated monitor suite: every restart request fails to send
@@ -400,6 +403,11 @@ func (t *trDouble) OpenChannel(ctx context.Context, dataSender peer.ID, chid dat
 	return t.rec(trRec{Kind: "open", To: tokOfPeer(dataSender), K: t.r.chidTokOf(chid), HasState: channel != nil, Msg: &s})
 }
 func (t *trDouble) CloseChannel(ctx context.Context, chid datatransfer.ChannelID) error {
+	if atomic.LoadInt32(&t.r.slowClose) == 1 {
+		// a user close: nothing may release the channel's transport resources before the request was
+		// cancelled; give a cleanup that was (wrongly) triggered earlier the time to overtake this call
+		time.Sleep(3 * time.Millisecond)
+	}
 	return t.rec(trRec{Kind: "close", K: t.r.chidTokOf(chid)})
 }
 func (t *trDouble) SetEventHandler(events datatransfer.EventsHandler) error {
@@ -419,7 +427,10 @@ func (t *trDouble) ResumeChannel(ctx context.Context, msg datatransfer.Message, 
 }
 
 // validator double
-type valDouble struct{ r *nodeRig }
+type valDouble struct {
+	r   *nodeRig
+	typ string
+}
 
 func (v *valDouble) next(kind int, chid datatransfer.ChannelID) (datatransfer.ValidationResult, error) {
 	r := v.r
@@ -429,7 +440,7 @@ func (v *valDouble) next(kind int, chid datatransfer.ChannelID) (datatransfer.Va
 	if len(r.vals) > 0 {
 		s, r.vals = r.vals[0], r.vals[1:]
 	}
-	r.valcalls = append(r.valcalls, valRec{kind, r.chidTokOf(chid), s})
+	r.valcalls = append(r.valcalls, valRec{kind, r.chidTokOf(chid), s, v.typ})
 	return s.real()
 }
 func (v *valDouble) ValidatePush(chid datatransfer.ChannelID, sender peer.ID, voucher datamodel.Node, baseCid cid.Cid, selector datamodel.Node) (datatransfer.ValidationResult, error) {
@@ -593,7 +604,7 @@ func (r *nodeRig) register(t string) {
 	if r.registered[t] {
 		return
 	}
-	if err := r.mgr.RegisterVoucherType(datatransfer.TypeIdentifier(t), &valDouble{r}); err == nil {
+	if err := r.mgr.RegisterVoucherType(datatransfer.TypeIdentifier(t), &valDouble{r, t}); err == nil {
 		r.registered[t] = true
 	}
 }
@@ -823,11 +834,15 @@ func (r *nodeRig) exec(s nStep, openIndex int) nObs {
 			vr, _ := s.Vr.real()
 			err = r.mgr.UpdateValidationStatus(ctx, k, vr)
 		case "close":
+			atomic.StoreInt32(&r.slowClose, 1)
 			err = r.mgr.CloseDataTransferChannel(ctx, k)
+			atomic.StoreInt32(&r.slowClose, 0)
 		case "closeerr":
+			atomic.StoreInt32(&r.slowClose, 1)
 			err = r.mgr.(interface {
 				CloseDataTransferChannelWithError(context.Context, datatransfer.ChannelID, error) error
 			}).CloseDataTransferChannelWithError(ctx, k, errors.New("close reason"))
+			atomic.StoreInt32(&r.slowClose, 0)
 		case "pause":
 			err = r.mgr.PauseDataTransferChannel(ctx, k)
 		case "resume":
@@ -1068,12 +1083,13 @@ type chanSnap struct {
 	Pull     bool
 	SelfInit bool
 	Other    int
+	OpenType string // type identifier of the opening voucher
 }
 
 func (r *nodeRig) snapOf(st datatransfer.ChannelState) chanSnap {
 	c := chanSnap{View: r.viewOf(st), Status: st.Status(), IPaused: st.InitiatorPaused(), RPaused: st.ResponderPaused(), SelfP: st.SelfPaused(),
 		Limit: st.DataLimit(), ReqFin: st.RequiresFinalization(), Queued: st.Queued(), Received: st.Received(), Pull: st.IsPull(),
-		SelfInit: st.ChannelID().Initiator == r.self, Other: tokOfPeer(st.OtherPeer())}
+		SelfInit: st.ChannelID().Initiator == r.self, Other: tokOfPeer(st.OtherPeer()), OpenType: string(st.Voucher().Type)}
 	c.Ident = fmt.Sprint(r.chidTokOf(st.ChannelID()), tokOfPeer(st.SelfPeer()), tokOfPeer(st.OtherPeer()), tokOfPeer(st.Sender()), tokOfPeer(st.Recipient()),
 		st.IsPull(), tokOfCid(st.BaseCID()), tokOfNode(st.Selector()), coqTyped(st.Voucher()), st.TotalSize())
 	c.Progress = fmt.Sprint(st.Queued(), st.Sent(), st.Received(), st.QueuedCidsTotal(), st.SentCidsTotal(), st.ReceivedCidsTotal())
